@@ -110,13 +110,16 @@ def history(job):
                 ang.append(abs(math.acos(cs)))
         angles = bool(max(ang) <= sp.joint_deflection_max + 1e-9)
         tilt = bool(all(relx[i, i] > sp.plate_rotation_limit - 1e-4 - 1e-9 for i in range(3)))
+        # known finding log_near_pi: a plate pose (or the relative pose) within 1e-3 of a half turn loses up to
+        # 5e-16/(pi-angle)^2 in the logarithm the library's frame arithmetic goes through (> 1e-9 inside 7e-4)
+        nearpi = any(rf.rot_angle(M[:3, :3]) > PI - 1e-3 for M in (B, T, relx))
         pure = 1
         if kind == "query":
             pure = 1 if (float(np.abs(B - before[0]).max()) <= 1e-9 and float(np.abs(T - before[1]).max()) <= 1e-9) else 0
         ev.append({"name": name, "kind": kind, "raised": 1 if raised else 0, "verdict": verdict,
                    "coh": [1 if coh_j else 0, 1 if coh_l else 0, 1 if coh_r else 0],
                    "con": [1 if legs else 0, 1 if trans else 0, 1 if angles else 0, 1 if tilt else 0], "sw": sw, "pure": pure,
-                   "calls": [dict(c) for c in rec.calls]})
+                   "nearpi": 1 if nearpi else 0, "calls": [dict(c) for c in rec.calls]})
 
     ops = ["IK-in", "IK-out", "IK-out", "FK-in", "FK-out", "FK-out", "FK-reverse", "move", "spinCustom", "validate",
            "inverseJacobian", "staticForces", "carryMassCalc", "randomPos", "IK-protect"]
@@ -174,11 +177,11 @@ def history(job):
         if raised:
             ev[-1]["msg"] = msg
             break
-    return {"id": idx + 1, "seed": seed, "how": how, "sw": sw, "ev": ev}
+    return {"id": idx + 1, "idx": idx, "n_ops": n_ops, "seed": seed, "how": how, "sw": sw, "ev": ev}
 
 
 def strip(t):
-    return {"id": t["id"], "ev": [{k: v for k, v in e.items() if k != "msg"} for e in t["ev"]]}
+    return {"id": t["id"], "ev": [{k: v for k, v in e.items() if k not in ("msg", "nearpi")} for e in t["ev"]]}
 
 
 def clause_of(e):
@@ -195,6 +198,30 @@ def clause_of(e):
     return "protocol_shape"
 
 
+def probe_job(_):
+    from basic_robotics.general import tm
+    rng = random.Random(7)
+    p = spzoo.params(rng)
+    with quiet():
+        sp = spzoo.build(p, np.eye(4), "newSP", c09.TMP)
+        ax = np.array([0.36, 0.48, 0.8])
+        T = rf.taa_to_tm([0.05, -0.02, float(sp.getTopT().gTM()[2, 3])] + list(ax * (PI - 3e-4)))
+        sp.IK(top_plate_pos=tm(T.copy()), protect=True)
+        rel = sp.getCurrentLocalTransform().gTM()
+        want = rf.trans_inv(sp.getBottomT().gTM()) @ sp.getTopT().gTM()
+    return float(np.abs(rel - want).max()), rel.tolist(), want.tolist()
+
+
+def known_probe(ctx):
+    """Deterministic reproduction of log_near_pi on a platform: a top-plate pose whose rotation is pi - 3e-4 (protected
+    IK, so nothing is corrected); the relative transform the platform reports differs from inv(bottom)*top by > 1e-9.
+    Runs in a forked child: the platform kernels are numba-parallel and must not run in the parent before pmap forks."""
+    dev, rel, want = pmap(probe_job, [0, 1], timeout=600)[0]      # two items: pmap runs a single one inline
+    ctx.cov["known_finding_probe_deviation"] = {"log_near_pi": dev}
+    if dev > 1e-9 and "log_near_pi" in ctx.known:
+        ctx.violation("incoherent:relative", {"probe": "log_near_pi"}, expected=want, observed=rel, tags=["log_near_pi"])
+
+
 def run(ctx):
     import basic_robotics.kinematics  # noqa: F401
     for rv, expect_ok in (("upto-k", True), ("none", False)):
@@ -207,6 +234,7 @@ def run(ctx):
             ctx.model_violation("Stewart protocol", r)
         if not expect_ok and "Sound" not in r.violated:
             ctx.machinery("the weakened protocol (no re-validation) did not violate Sound: the invariant is vacuous")
+    known_probe(ctx)
     n_hist = ctx.pick(480, 8000)
     n_ops = ctx.pick(15, 25)
     with ctx.timed("histories"):
@@ -228,9 +256,13 @@ def run(ctx):
             k, _ = vtrace.first_unmatched("StewartTrace", CFG, strip(t))
         e = t["ev"][k] if k < len(t["ev"]) else None
         c = clause_of(e)
+        tags = ["log_near_pi"] if (c.startswith("incoherent") and any(x.get("nearpi") for x in t["ev"][:k + 1])) else []
+        if tags and "log_near_pi" in ctx.known:
+            ctx.violation(c, {"seed": t["seed"]}, tags=tags)        # prints the KNOWN-FINDING line once, counts nothing
+            continue
         summary[(c, e["name"] if e else "?")] = summary.get((c, e["name"] if e else "?"), 0) + 1
         if sum(summary.values()) <= 5:
-            ctx.violation(c, {"seed": t["seed"], "how": t["how"], "switches": t["sw"], "event_index": k,
+            ctx.violation(c, {"idx": t["idx"], "seed": t["seed"], "n_ops": t["n_ops"], "how": t["how"], "switches": t["sw"], "event_index": k,
                               "ops": [x["name"] for x in t["ev"][:k + 1]], "event": e},
                           expected="EventOK(event)", observed={kk: e[kk] for kk in ("verdict", "coh", "con", "pure", "raised")} if e else None)
         else:
@@ -260,5 +292,17 @@ def run(ctx):
 
 
 def replay(ctx, rep):
-    print("re-run the check with the same seed; case:", {k: v for k, v in rep["case"].items() if k != "event"})
+    import basic_robotics.kinematics  # noqa: F401
+    c = rep["case"]
+    if "idx" not in c:
+        print("replay file has no history index; re-run the check with seed", rep.get("seed"))
+        return 0
+    t = history((c["idx"], c["seed"], c["n_ops"]))
+    for i, e in enumerate(t["ev"]):
+        cl = clause_of(e)
+        print(i, e["name"], e["verdict"], "coh", e["coh"], "con", e["con"], "nearpi", e["nearpi"], "" if cl == "protocol_shape" else "<-- " + cl)
+    bad = [e for e in t["ev"] if clause_of(e) != "protocol_shape"]
+    if bad:
+        print("VIOLATION property=C10 replay=(replayed)")
+        return 1
     return 0
